@@ -81,6 +81,8 @@ def klass(o, evs):
         return "panic"
     if o["kind"] == "accept":
         return "rejected-valid" if not all(x.get("ok") for x in evs[1:]) else "wrong-structure"
+    if o["kind"] == "parses":
+        return "rejected-valid"
     return "accepted-invalid"
 
 
@@ -226,7 +228,7 @@ class Classifier:
 def reproduce(ck, o):
     p = ck.path("rerun-in.ndjson")
     with open(p, "w") as f:
-        f.write(json.dumps({k: o.get(k) for k in ("src", "kind", "why", "canon", "canonw", "ops", "pairs", "ar", "nl", "nodes")}) + "\n")
+        f.write(json.dumps({k: o.get(k) for k in ("src", "kind", "why", "canon", "canonw", "ops", "pairs", "ar", "nl", "nodes", "rep")}) + "\n")
     ck.drive("jsgram", "file", "-in", p, "-out", ck.path("rerun.ndjson"))
     again = ck.validate("js", "JsGrammarTrace", "JsGrammarTrace.cfg", ck.path("rerun.ndjson"), shards=1)
     ck.cov["traces_validated_against_impl"] -= 1
@@ -250,13 +252,17 @@ def judge(ck, cl, fails, origin, period):
             ck.fatal("rejected trace did not reproduce: %s" % sig)
         ev = next((x for x in evs if x["i"] == f["i"]), {})
         what = "js.Parse(%s) with Options #%s: " % (json.dumps(text(o["src"])), ev.get("opts"))
-        if o["kind"] == "accept":
+        if o["kind"] == "parses":
+            what += "error %s; the grammar derives the program" % json.dumps(ev.get("etext"))
+            if o.get("rep"):
+                what += " (%d copies of 'src', each the body of a block)" % o["rep"]
+        elif o["kind"] == "accept":
             what += ("error %s" % json.dumps(ev.get("etext")) if not ev.get("ok") else "String() = %s" % json.dumps(text(ev.get("str"))))
             what += "; the grammar derives the program, prescribed tree: %s" % json.dumps(text(o["canonw"] if ev.get("w2f") else o["canon"]))
         else:
             what += "returned a tree %s; expected an error (%s)" % (json.dumps(text(ev.get("str"))), o.get("why"))
         ck.violation(sig, what, {"suite": "jsgram", "origin": origin, "src": o["src"], "kind": o["kind"], "why": o.get("why"), "canon": o["canon"],
-                                 "canonw": o["canonw"], "ops": o.get("ops"), "pairs": o.get("pairs"), "ar": o.get("ar"), "nl": o.get("nl"), "nodes": o.get("nodes"),
+                                 "canonw": o["canonw"], "ops": o.get("ops"), "pairs": o.get("pairs"), "ar": o.get("ar"), "nl": o.get("nl"), "nodes": o.get("nodes"), "rep": o.get("rep", 0),
                                  "text": text(o["src"]), "rejected_event_index": f["i"],
                                  "how": "bin/check C03 --replay <this file> parses 'src' again under every Options value and validates the trace with spec/js/JsGrammarTrace.tla"})
 
